@@ -91,6 +91,53 @@ def supervised(fn, deadline=20.0):
         signal.setitimer(signal.ITIMER_REAL, 0)
         signal.signal(signal.SIGALRM, old)
 
+def supervised_fork(fn, deadline=20.0):
+    """like supervised, but in a forked child that is killed after the deadline: also stops hangs inside C code
+    (where the interpreter never gets to run the SIGALRM handler). fn must return picklable plain data."""
+    import pickle, select
+    r, w = os.pipe()
+    pid = os.fork()
+    if pid == 0:
+        os.close(r)
+        try:
+            data = pickle.dumps(supervised(fn, deadline))
+        except BaseException as e:  # noqa
+            data = pickle.dumps(("err", type(e).__name__, str(e)[:200]))
+        try:
+            with os.fdopen(w, "wb") as fh:
+                fh.write(data)
+        finally:
+            os._exit(0)
+    os.close(w)
+    buf = b""
+    end = time.time() + deadline + 2.0
+    while True:
+        rem = end - time.time()
+        if rem <= 0:
+            break
+        rl, _, _ = select.select([r], [], [], rem)
+        if not rl:
+            break
+        chunk = os.read(r, 1 << 16)
+        if not chunk:
+            break
+        buf += chunk
+    os.close(r)
+    try:
+        os.kill(pid, 9)
+    except OSError:
+        pass
+    try:
+        os.waitpid(pid, 0)
+    except OSError:
+        pass
+    if not buf:
+        return ("timeout",)
+    try:
+        return pickle.loads(buf)
+    except Exception:  # noqa
+        return ("timeout",)
+
 # ----------------------------------------------------------------------------------------------
 # Coq side
 
